@@ -212,7 +212,17 @@ func (m *Muxer) isAnimated() bool {
 
 // needsVP8X returns true if the file requires the extended format header.
 func (m *Muxer) needsVP8X() bool {
-	return m.isAnimated() || m.iccData != nil || m.exifData != nil || m.xmpData != nil
+	if m.isAnimated() || m.iccData != nil || m.exifData != nil || m.xmpData != nil {
+		return true
+	}
+	// A frame carrying a separate ALPH chunk can only be stored in the
+	// extended format.
+	for _, f := range m.frames {
+		if alphaData, _ := splitAlphaAndBitstream(f.data); alphaData != nil {
+			return true
+		}
+	}
+	return false
 }
 
 // Assemble writes the complete WebP file to w.
@@ -381,7 +391,7 @@ func (m *Muxer) assembleExtended(w io.Writer) error {
 				riffPayload64++
 			}
 		} else {
-			riffPayload64 += uint64(chunkTotalSize(uint32(len(f.data))))
+			riffPayload64 += uint64(subChunkSize(f.data))
 		}
 	}
 
@@ -447,7 +457,14 @@ func (m *Muxer) assembleExtended(w io.Writer) error {
 				return err
 			}
 		} else {
-			if err := writeDataChunk(w, detectBitstreamType(f.data), f.data); err != nil {
+			// Still image: optional ALPH chunk followed by the bitstream chunk.
+			alphaData, bitstream := splitAlphaAndBitstream(f.data)
+			if alphaData != nil {
+				if err := writeDataChunk(w, FourCCALPH, alphaData); err != nil {
+					return err
+				}
+			}
+			if err := writeDataChunk(w, detectBitstreamType(bitstream), bitstream); err != nil {
 				return err
 			}
 		}
